@@ -47,7 +47,9 @@ impl<R: Round> Context<R> {
 
         // adjust the signifcand so that the exponent is even
         let digits = x.digits() as isize;
-        let shift = self.precision as isize * 2 - (digits & 1) + (x.exponent & 1) - digits;
+        // (the shifted significand has 2 * precision or 2 * precision - 1 digits, so that the
+        // root has exactly `precision` digits and is rounded only once)
+        let shift = self.precision as isize * 2 - digits - ((digits + x.exponent) & 1);
         let (signif, low, low_digits) = if shift > 0 {
             (shl_digits::<B>(&x.significand, shift as usize), IBig::ZERO, 0)
         } else {
